@@ -6,6 +6,7 @@
 
 int g_delta_len0, g_delta_stop, g_delta_seen; unsigned g_delta_win;
 int g_mt_stop, g_mt_verdict; unsigned g_sel_win; int g_sel_seen, g_sel_stop, g_group_stop, g_eob_ok; unsigned g_nsel_read; int g_no_mtfv;
+int g_hdr_stop; void verif_retrieve_header_done(struct decoder_state *ds, unsigned a, unsigned b, unsigned c, const unsigned char *m) { }
 void *xmalloc(size_t n) { return malloc(n); }
 
 #ifndef EMIT_N
